@@ -375,7 +375,8 @@ def shape_table(rng, side, shape, dtype):
             vals = [v if v is not None else 'a' for v in vals]      # one-sided missing arises here
     keys = list(range(10, 10 + n))
     cols = [side + 'id', side + 'attr', side + 'x']
-    return {'cols': cols, 'data': {side + 'id': keys, side + 'attr': vals, side + 'x': ['x'] * n},
+    xs = [None if (shape == 'normal' and rng.random() < 0.4) else 'x%d' % i for i in range(n)]
+    return {'cols': cols, 'data': {side + 'id': keys, side + 'attr': vals, side + 'x': xs},
             'index': None, 'dtypes': {side + 'id': 'int64', side + 'attr': dtype, side + 'x': 'object'}}
 
 
